@@ -23,7 +23,7 @@ INPUTS = {"categorical": {"num_categories": 3}, "binomial": {"total_count": 2}, 
 
 
 def build(rng):
-    kind = rng.choice(["rg", "rg", "rg", "image", "tabular", "hmm", "ff"])
+    kind = rng.choice(["rg", "rg", "rg", "image", "tabular", "hmm", "ff", "tf"])
     ik = rng.choice(list(INPUTS))
     K = rng.choice([1, 2, 3])
     nc = rng.choice([1, 1, 2])
@@ -69,6 +69,22 @@ def build(rng):
         meta["ordering"] = order
         sc = pgms.hmm(order, input_layer=ik, num_latent_states=K, input_layer_kwargs=INPUTS[ik])
         doms = {v: (("disc", 3) if ik != "gaussian" else ("real",)) for v in range(n)}
+        return sc, doms, meta
+    if kind == "tf":
+        from cirkit.templates import tensor_factorizations as TF
+        tik = rng.choice(["categorical", "binomial"])
+        meta["input"] = tik
+        d = rng.choice([2, 2, 3])
+        shape = tuple(rng.choice([2, 3]) for _ in range(d))
+        sm = Parameterization(activation="softmax", initialization="normal")
+        if rng.random() < 0.5:
+            meta["abstraction"] = "cp"
+            sc = TF.cp(shape, K, input_layer=tik, weight_param=sm)
+        else:
+            meta["abstraction"] = "tucker"
+            sc = TF.tucker(shape, min(K, 2), input_layer=tik, core_param=sm)
+        meta["shape"] = list(shape)
+        doms = {v: ("disc", shape[v]) for v in range(d)}
         return sc, doms, meta
     n = rng.randint(1, 5)
     sc = pgms.fully_factorized(n, input_layer=ik, input_layer_kwargs=INPUTS[ik])
